@@ -87,6 +87,27 @@ def deref_val(v):
         else:
             return v
 
+def qualified(raw):
+    """(self type, trait head, [trait generic args], method) of a `<A as B<..>>::m` callee text."""
+    segs = split_path(raw)
+    head = segs[0].strip()
+    if not (head.startswith('<') and head.endswith('>')):
+        return None
+    inner = head[1:-1]
+    j = find_top(inner, ' as ')
+    if j < 0:
+        return None
+    selfty = inner[:j].strip()
+    tr = inner[j + 4:].strip()
+    targs = []
+    k = tr.find('<')
+    thead = tr
+    if k >= 0 and tr.endswith('>'):
+        thead = tr[:k]
+        targs = split_top(tr[k + 1:-1])
+    meth = segs[-1] if not segs[-1].startswith('<') else segs[-2]
+    return selfty, last_seg(thead), targs, meth
+
 def int_ty_of(name):
     return sym.INT_TYPES.get(name)
 
@@ -217,13 +238,13 @@ def _max(m, args, ci):
 
 _SCALAR = r'(u8|u16|u32|u64|u128|usize|i8|i16|i32|i64|i128|isize|bool|char)'
 
-@I.rx(r'^<&?%s as PartialEq(<&?%s>)?>::(eq|ne)$' % (_SCALAR, _SCALAR))
+@I.rx(r'^<&?%s as PartialEq>::(eq|ne)$' % _SCALAR)
 def _scalar_eq(m, args, ci):
     a, b = deref_val(args[0]), deref_val(args[1])
     r = sym.eq(a, b)
     return r if ci.name.endswith('::eq') else sym.not_(r)
 
-@I.rx(r'^<&?%s as PartialOrd(<&?%s>)?>::(lt|le|gt|ge)$' % (_SCALAR, _SCALAR))
+@I.rx(r'^<&?%s as PartialOrd>::(lt|le|gt|ge)$' % _SCALAR)
 def _scalar_ord(m, args, ci):
     a, b = deref_val(args[0]), deref_val(args[1])
     f = {'lt': sym.lt, 'le': sym.le, 'gt': sym.gt, 'ge': sym.ge}[ci.name[-2:]]
@@ -232,8 +253,12 @@ def _scalar_ord(m, args, ci):
 # ----------------------------------------------------------------------------
 # integer conversions
 # ----------------------------------------------------------------------------
-@I.rx(r'^<%s as (From|Into)<%s>>::(from|into)$' % (_SCALAR, _SCALAR))
+@I.rx(r'^<%s as (From|Into)>::(from|into)$' % _SCALAR)
 def _int_from(m, args, ci):
+    q = qualified(ci.raw)
+    other = q[2][0] if q and q[2] else ''
+    if other not in sym.INT_TYPES and other not in ('bool', 'char'):
+        return _generic_from(m, args, ci)
     v = args[0]
     if isinstance(v, bool):
         return int(v)
@@ -241,15 +266,25 @@ def _int_from(m, args, ci):
         return sym.ite(v, 1, 0)
     return v
 
-@I.rx(r'^<(\w+) as (TryFrom|TryInto)<(\w+)>>::(try_from|try_into)$')
+@I.rx(r'^<.* as (TryFrom|TryInto)>::(try_from|try_into)$')
 def _int_try(m, args, ci):
-    mm = re.match(r'^<(\w+) as (TryFrom|TryInto)<(\w+)>>::', ci.name)
-    a, kind, b = mm.group(1), mm.group(2), mm.group(3)
+    q = qualified(ci.raw)
+    a, kind, b = q[0], q[1], (q[2][0] if q[2] else '')
     target = sym.INT_TYPES.get(a if kind == 'TryFrom' else b)
     source = sym.INT_TYPES.get(b if kind == 'TryFrom' else a)
-    if target is None or source is None:
-        raise Unsupported('try_from between ' + ci.name)
+    if target is None:
+        # generic: the destination type tells the target (Result<target, _>)
+        dty = ci.dest_type(m) or ''
+        mm = re.match(r'^(?:std::result::)?Result<(\w+),', dty)
+        target = sym.INT_TYPES.get(mm.group(1)) if mm else None
+    if target is None:
+        body = m.prog.resolve_fn(ci.raw)
+        if body is not None:
+            return m.call_body(body, args)
+        raise Unsupported('try_from between ' + ci.raw)
     v = args[0]
+    if not isinstance(v, (int, T)) or isinstance(v, bool):
+        raise Unsupported('try_from on non-integer %r' % (v,))
     if m.branch(sym.out_of_range(v, target), 'try_from'):
         return err(Opaque('TryFromIntError'))
     return ok(v)
@@ -452,11 +487,11 @@ def _opt_branch(m, args, ci):
         return Adt('std::ops::ControlFlow', 'Continue', {0: o.fields[0]})
     return Adt('std::ops::ControlFlow', 'Break', {0: none()})
 
-@I.rx(r'^<(std::option::)?Option as (std::ops::)?FromResidual(<.*>)?>::from_residual$')
+@I.rx(r'^<(std::option::)?Option as (std::ops::)?FromResidual>::from_residual$')
 def _opt_from_residual(m, args, ci):
     return none()
 
-@I.rx(r'^<(std::result::)?Result as (std::ops::)?FromResidual(<.*>)?>::from_residual$')
+@I.rx(r'^<(std::result::)?Result as (std::ops::)?FromResidual>::from_residual$')
 def _res_from_residual(m, args, ci):
     r = _res(args[0])
     e = r.fields[0]
@@ -626,15 +661,15 @@ def _black_box(m, args, ci):
 def _identity(m, args, ci):
     return args[0]
 
-@I.rx(r'^<.* as (From|Into)<.*>>::(from|into)$')
+@I.rx(r'^<.* as (From|Into)>::(from|into)$')
 def _generic_from(m, args, ci):
     """From/Into not matched elsewhere: crate-local impl if any, else identity for T -> T
     and documented std conversions."""
     b = m.prog.resolve_fn(ci.raw)
     if b is not None:
         return m.call_body(b, args)
-    mm = re.match(r'^<(.*) as (From|Into)<(.*)>>::', ci.name)
-    a, kind, bb = mm.group(1), mm.group(2), mm.group(3)
+    q = qualified(ci.raw)
+    a, kind, bb = type_head(q[0]), q[1], (type_head(q[2][0]) if q[2] else '')
     src, dst = (bb, a) if kind == 'From' else (a, bb)
     return convert(m, args[0], src, dst, ci)
 
